@@ -65,3 +65,5 @@ pub broadcast proof fn lemma_pubkey_eq(a: Pubkey, b: Pubkey)
 pub fn v_slice_to_id(s: &[u8]) -> (r: Id) requires s@.len() == 32 ensures id_view(r) == s@ { unimplemented!() }
 #[verifier::external_body]
 pub fn v_slice_to_pubkey(s: &[u8]) -> (r: Pubkey) requires s@.len() == 32 ensures pk_view(r) == s@ { unimplemented!() }
+#[verifier::external_body]
+pub fn v_slice_to_arr32(s: &[u8]) -> (r: [u8; 32]) requires s@.len() == 32 ensures r@ == s@ { unimplemented!() }
